@@ -1001,7 +1001,17 @@ func oraRandom(fl *drv.Flags, rng *rand.Rand, w *chain.TraceWriter) {
 						x = -x // keeps known finding F15 out of a run (testing aid)
 					}
 					ev["x"] = x
+					// an answer that holds "NaN": only where today's code skips it cleanly - a max / min
+					// feed, and another provider's number is already in (state of the chain)
+					numbered := false
+					for _, q := range chain.SortedKeys(reqs) {
+						if oq, ok := reqs[q].(chain.M); ok && q != who && oq["kind"] == "val" {
+							numbered = true
+						}
+					}
 					switch y := rng.Intn(20); {
+					case numbered && who == p && (fd["agg"] == "max" || fd["agg"] == "min") && y >= 12:
+						ev["pay"] = "nan"
 					case y < 4:
 						ev["pay"] = pick(rng, valuePays)
 					case y < 7:
